@@ -53,10 +53,10 @@ def _has_at(node) -> bool:
 
 
 def _leaf_strings(node, path=()):
-    """(path, str) for list items / dict values that are plain literal strings."""
+    """(path, value) for list items / dict values that are plain literal strings or integers (0 included)."""
     if isinstance(node, list):
         for i, v in enumerate(node):
-            if isinstance(v, str):
+            if isinstance(v, (str, int)) and not isinstance(v, bool):
                 yield path + (i,), v
             else:
                 yield from _leaf_strings(v, path + (i,))
@@ -64,13 +64,15 @@ def _leaf_strings(node, path=()):
         for k, v in node.items():
             if k == "times":
                 continue
-            if isinstance(v, str):
+            if isinstance(v, (str, int)) and not isinstance(v, bool):
                 yield path + (k,), v
             else:
                 yield from _leaf_strings(v, path + (k,))
 
 
 def plain(s) -> bool:
+    if isinstance(s, int) and not isinstance(s, bool):
+        return True
     return isinstance(s, str) and s != "" and not s.startswith(("&", "$", "@")) and "@" not in s
 
 
@@ -80,7 +82,7 @@ class Factoring:
         self.inl = copy.deepcopy(pattern)      # inlined twin (grows when extra uses are inserted)
         self.mac = copy.deepcopy(pattern)      # macro version
         self.macros: List[dict] = []
-        self.decoys = [d for d in decoys if plain(d)] or ["%zz"]
+        self.decoys = ([d for d in decoys if plain(d)] or ["%zz"]) + [0, 0, 1, "0x0"]
         self.forms: List[str] = []
         self.resub_probe = resub_probe
         self.resub_used = False
@@ -118,12 +120,12 @@ class Factoring:
                 return True
             if form == "times-body" and in_list and isinstance(val, dict) and len(val) == 1:
                 k0 = next(iter(val))
-                if plain(k0) and k0 != "times" and isinstance(val[k0], dict) and set(val[k0]) == {"times"}:
+                if isinstance(k0, str) and plain(k0) and k0 != "times" and isinstance(val[k0], dict) and set(val[k0]) == {"times"}:
                     _set(tree, path, {name: copy.deepcopy(val[k0])})
                     self.macros.append({"name": name, "pattern": k0})
                     self.forms.append("times-body")
                     return True
-            if form == "substring" and plain(val) and len(val) >= 2 and (in_list or path[-1] != "times"):
+            if form == "substring" and isinstance(val, str) and plain(val) and len(val) >= 2 and (in_list or path[-1] != "times"):
                 a = rng.randrange(0, len(val))
                 b = rng.randrange(a + 1, len(val) + 1)
                 pre, mid, post = val[:a], val[a:b], val[b:]
@@ -132,7 +134,7 @@ class Factoring:
                     self.macros.append({"name": name, "pattern": mid})
                     self.forms.append("substring")
                     return True
-            if form == "value" and isinstance(parent, dict) and not in_list and plain(val):
+            if form == "value" and isinstance(parent, dict) and not in_list and isinstance(val, str) and plain(val):
                 _set(tree, path, name)
                 self.macros.append({"name": name, "pattern": val})
                 self.forms.append("dict-value")
